@@ -11,6 +11,7 @@ mod c09;
 mod c10;
 mod c11;
 mod c12;
+mod c13;
 mod c20;
 
 fn main() {
@@ -54,7 +55,17 @@ fn main() {
     eprintln!("unknown tier {tier}");
     std::process::exit(2);
   }
-  engine::install_quiet_panic_hook();
+  // simulators open many sockets/pipes; lift the soft descriptor limit to the hard one
+  unsafe {
+    let mut l = libc::rlimit { rlim_cur: 0, rlim_max: 0 };
+    if libc::getrlimit(libc::RLIMIT_NOFILE, &mut l) == 0 {
+      l.rlim_cur = l.rlim_max;
+      libc::setrlimit(libc::RLIMIT_NOFILE, &l);
+    }
+  }
+  if std::env::var("VERIF_LOUD").is_err() {
+    engine::install_quiet_panic_hook();
+  }
   let replay_doc = replay.map(|p| {
     let s = std::fs::read_to_string(&p).unwrap_or_else(|e| {
       eprintln!("cannot read replay {p}: {e}");
@@ -93,6 +104,8 @@ fn main() {
     ("C11", None) => c11::run(&tier),
     ("C11", Some(d)) => c11::replay(&d),
     ("C12", None) => c12::run(&tier),
+    ("C13", None) => c13::run(&tier),
+    ("C13", Some(d)) => c13::replay(&d),
     ("C20", None) => c20::run(&tier),
     ("C20", Some(d)) => c20::replay(&d),
     ("C12", Some(d)) => c12::replay(&d),
